@@ -7,6 +7,10 @@ here=$(cd "$(dirname "$0")" && pwd)
 prop=${1:?property}; tier=${2:-quick}
 export VERIF_DIR=${VERIF_DIR:-$here}   # evidence, replay artefacts and known findings live next to this script
 mkdir -p "$here/bin" "$here/evidence"
+# Each property has its own main (cmd/mc-cNN, one driver linked in), so a driver that does not build cannot take the
+# other nineteen checks down with it; cmd/mc links all of them (mc -list).
+lc=$(echo "$prop" | tr 'A-Z' 'a-z')
+if [ -z "${VERIF_MAIN:-}" ] && [ -d "$here/mc/cmd/mc-$lc" ]; then VERIF_MAIN="./cmd/mc-$lc"; fi
 bin="$here/bin/mc"
 [ -n "${VERIF_MAIN:-}" ] && bin="$here/bin/$(basename "$VERIF_MAIN")"
 args=()
